@@ -11,7 +11,7 @@ import (
 
 var c10Ops = func() []sop {
 	o := append([]sop{}, c07Ops...)
-	o = append(o, sop{Kind: "reopen"}, sop{Kind: "scan"})
+	o = append(o, sop{Kind: "reopen"}, sop{Kind: "scan"}, sop{Kind: "addfail", MB: 0})
 	return o
 }()
 
